@@ -482,7 +482,26 @@ def run_cfg(chk, facts, cfg):
                    sample={'fn': name, 'events': [e[0] for e in paths[0].events] if paths else None})
         except (Unsupported, NotParametric) as e:
             chk.ob(key, 'E3+events', name, None, 'undecided: %s' % e, where)
+    # the ranks are "floor of the Wilson bounds": the ci_wilson contract plugged in above as a stub is C02's - its
+    # obligations (domain table, signed formula, unit interval, exact guards, radicand) are re-established here on the
+    # same facts and reported under this property (seed C03-k: the sign of z lost under a square root moves one-sided
+    # ranks below level 1/2 by two positions, and only C02 / C10 / C17 said so)
+    n_w = 0
+    try:
+        from .. import core as core_
+        from . import C02 as R2
+        sub = core_.Check('C02', chk.tier)
+        R2.run_cfg(sub, facts, cfg)
+        for o in sub.obligations:
+            if ':ci_wilson:' in o['key']:
+                n_w += 1
+                chk.ob('%s:wilson-contract:%s' % (PID, o['key'].split(':', 1)[1]), 'composition ' + o['rule'],
+                       'contract of the stubbed callee: ' + (o.get('desc') or o['key']),
+                       None if o['status'] == 'undecided' else o['status'] == 'ok', o.get('detail') or '', o.get('where') or 'proportion::ci_wilson')
+    except Exception as e:
+        chk.ob('%s:wilson-contract%s' % (PID, sfx), 'composition', 'contract of ci_wilson', None, 'undecided: %r' % (e,), 'proportion::ci_wilson')
     if cfg == 'default':
+        chk.floor('wilson-contract-obligations', n_w, 15)
         chk.floor('sort-sites', cnt['sort'], 2)
         chk.floor('index-sites', cnt['index'], 4)
         chk.floor('rank-cap', cnt['cap'], 1)
